@@ -260,6 +260,13 @@ func cmdVerify(args []string) (code int) {
 			}
 		} else {
 			rec["solver_output"] = truncate(o.Model, 2000)
+			// no model: the replay adapter (a driver over the clause's input region) may still find a failing input
+			if ok, detail := tryReplay(*verif, *repo, overlay, &cfg, o, rec); ok {
+				suffix = ""
+				rec["replayed"] = detail
+			} else if detail != "" && detail != "no replay adapter for this obligation" {
+				rec["replay_attempt"] = detail
+			}
 		}
 		d, _ := json.MarshalIndent(rec, "", " ")
 		os.WriteFile(rp, d, 0o644)
